@@ -24,6 +24,24 @@ from vlib.refcodec import Codec
 LEVEL = "exploration"
 FLOOR = {"quick": 400, "thorough": 20000}
 
+import threading
+_HOME = threading.local()      # the namespace whose generated file is being read (record references are relative to it)
+
+
+def nskey(ns) -> str:
+    return (ns or "").lower().replace("_", "")
+
+
+def ns_mark(module_path: str) -> str:
+    """'' for a reference into the file's own namespace, else the normalised namespace named by the module path of the expression"""
+    parts = module_path.split(".")
+    if len(parts) < 2:
+        return ""
+    first = nskey(parts[0])
+    if first in ("binary", "ndjson", "yardl", ""):
+        return ""
+    return "" if first == nskey(getattr(_HOME, "ns", None)) else first
+
 # ----------------------------------------------------------------------------- expression parser (Python and MATLAB call syntax)
 
 TOK = re.compile(r"\s*(?:(?P<str>'(?:[^']|'')*'|\"[^\"]*\")|(?P<num>\d+)|(?P<name>@?[A-Za-z_][\w.]*(?:\[[\w, .\[\]]*\])?(?:\.[A-Za-z_]\w*)*)|(?P<p>[()\[\]{},]))")
@@ -167,7 +185,7 @@ def norm(e, lang, kind="Serializer"):
             return ("enum", norm(inner[0], lang, kind)[1] if inner else None)
         if base == "Stream":
             return ("stream", norm(a[0], lang, kind))
-        return ("rec", base, tuple(norm(x, lang, kind) for x in a))
+        return ("rec", base, tuple(norm(x, lang, kind) for x in a), ns_mark(e[1]))
     return ("?", repr(e)[:60])
 
 
@@ -183,7 +201,7 @@ def ref_plan(c: Codec, t, home_ns):
         d, ns = c.env.lookup(t)
         if isinstance(d, En):
             return ("enum", d.base_prim)
-        return ("rec", d.name, tuple(ref_plan(c, a, home_ns) for a in t.args))
+        return ("rec", d.name, tuple(ref_plan(c, a, home_ns) for a in t.args), "" if nskey(ns) == nskey(home_ns) else nskey(ns))
     if isinstance(t, U):
         if t.is_optional:
             return ("opt", ref_plan(c, t.cases[0][1], home_ns))
@@ -316,6 +334,18 @@ def run(ctx):
     keys = [("ser", k) for k in corpus.ser_keys(12 if quick else 800, "p")] + [("evo", "c14_%d_%d" % (common.seed(), i)) for i in range(3 if quick else 150)]
 
     keys.append(("zoo", "unionzoo"))
+    keys.append(("samename", "samename"))
+
+    def same_name():
+        """a local and an imported record (and enum) that share their unqualified name and differ in layout, both used from the same namespace;
+        a record field of type [null, A, B] (not a plain optional)"""
+        geo = Pkg("Geometry", [Rec("Point", [("x", P("float64")), ("y", P("float64"))]), En("Mode", [("fast", 0), ("slow", 1)], "uint8"),
+                               Rec("Pair", [("first", TP("T")), ("second", N("Point"))], ("T",))])
+        return Pkg("Scan", [Rec("Point", [("i", P("int32")), ("j", P("int32"))]), En("Mode", [("on", 0), ("off", 7)], "int64"),
+                            Rec("Sample", [("index", N("Point")), ("loc", N("Point", (), "Geometry")), ("more", V(N("Point", (), "Geometry"))), ("mine", V(N("Point"))),
+                                           ("m", N("Mode")), ("gm", N("Mode", (), "Geometry")), ("pair", N("Pair", (N("Point"),), "Geometry")),
+                                           ("quality", U(((None, P("int32")), (None, P("string"))), True)), ("note", Opt(P("string")))]),
+                            Proto("Acq", [("first", N("Point")), ("second", N("Point", (), "Geometry")), ("samples", S(N("Sample"))), ("locs", S(N("Point", (), "Geometry"))), ("idx", S(N("Point")))])], [geo])
 
     def union_zoo():
         """unions of three and four cases in every order of JSON kinds: whether a union is written bare or tagged depends on *all* pairs of cases"""
@@ -345,7 +375,7 @@ def run(ctx):
 
     def one(item):
         kind, key = item
-        pkg = union_zoo() if kind == "zoo" else (corpus.ser_package(key, depth=3) if kind == "ser" else evo.evo_base(key))
+        pkg = same_name() if kind == "samename" else union_zoo() if kind == "zoo" else (corpus.ser_package(key, depth=3) if kind == "ser" else evo.evo_base(key))
         root = os.path.join(ctx.workdir, "cases", key)
         shutil.rmtree(root, ignore_errors=True)
         outs = emit.default_outputs("../out", matlab=True, cpp=False)
@@ -380,7 +410,7 @@ def run(ctx):
         for q in pkg.closure():
             for d in q.defs:
                 if isinstance(d, Rec):
-                    ref_recs[d.name] = [ref_plan(c, fq(ft, q.ns), q.ns) for fn, ft in d.fields]
+                    ref_recs[(q.ns, d.name)] = [ref_plan(c, fq(ft, q.ns), q.ns) for fn, ft in d.fields]
         ok = True
 
         def compare(backend, where, got, want):
@@ -402,6 +432,7 @@ def run(ctx):
             fn = "binary.py" if kindname == "Serializer" else "ndjson.py"
             src = open(os.path.join(pyd, pk, fn)).read()
             steps = py_step_exprs(src, kindname)
+            _HOME.ns = pkg.ns
             for proto in pkg.protocols():
                 for role in ("Writer", "Reader"):
                     names = steps_by_order(steps, proto.name, role)
@@ -443,10 +474,35 @@ def run(ctx):
                             for k in re.findall(r'json_object(?:\[|\.get\()"([^"]+)"', mm.group(1)):
                                 if k not in keys:
                                     keys.append(k)
+                            # which keys may be left out (written only when the value is not null / read with a default): exactly the fields whose
+                            # type has a null case - plain optionals and nullable unions alike; a bare type parameter decides at run time
+                            omitted = {}
+                            lines = mm.group(1).split("\n")
+                            for li, ln in enumerate(lines):
+                                wm = re.search(r'json_object\["([^"]+)"\] = ', ln)
+                                if wm:
+                                    prev = next((x for x in reversed(lines[:li]) if x.strip()), "")
+                                    omitted[wm.group(1)] = "dynamic" if "supports_none" in prev else ("omit" if (prev.strip().startswith("if ") and "is not None" in prev and len(prev) - len(prev.lstrip()) < len(ln) - len(ln.lstrip())) else "always")
+                                for k2 in re.findall(r'json_object\.get\("([^"]+)"\)', ln):
+                                    omitted[k2] = "dynamic" if "supports_none" in ln else "omit"
+                                for k2 in re.findall(r'json_object\["([^"]+)"\](?! =)', ln):
+                                    omitted.setdefault(k2, "dynamic" if "supports_none" in ln else "always")
+                            want_om = {}
+                            for fn2, ft2 in d.fields:
+                                rt2 = fq(ft2, q.ns)
+                                rt2 = c.res(rt2) if not isinstance(rt2, TP) else rt2
+                                want_om[fn2] = "dynamic" if isinstance(rt2, TP) else ("omit" if isinstance(rt2, U) and rt2.nullable else "always")
+                            ctx.count("ndjson-omission.compared")
+                            bad_om = {k2: (omitted.get(k2), w2) for k2, w2 in want_om.items() if omitted.get(k2) != w2 and "dynamic" not in (omitted.get(k2), w2)}
+                            if bad_om:
+                                ctx.violation("plan-differs:py-ndjson:null-omission:%s" % meth, "%s record %s: %s treats the null value of %s differently from the documented mapping (found, documented): a field whose type has a null case is left out when null and may be absent when read" % (
+                                    key, d.name, meth, bad_om), {"case_dir": root})
+                                ok = False
                             ctx.count("ndjson-keys.compared")
                             if keys != [fn for fn, _ in d.fields]:
                                 ctx.violation("plan-differs:py-ndjson:keys:%s" % meth, "%s record %s: %s uses the JSON keys %s, the fields are %s" % (key, d.name, meth, keys, [fn for fn, _ in d.fields]), {"case_dir": root})
                                 ok = False
+                _HOME.ns = q.ns
                 recs = py_record_exprs(sub, kindname)
                 # the constructor of a generic record's serializer / converter takes the element serializers in the order of the type
                 # parameters (that is the order in which every use site passes them)
@@ -469,7 +525,7 @@ def run(ctx):
                                 gots.append(plan_of(x, "py", kindname))
                             except Exception as e:
                                 gots.append(("unparsable", str(e)[:80]))
-                        want = ref_recs[d.name]
+                        want = ref_recs[(q.ns, d.name)]
                         tpn = {("T%d" % (i + 1)): tp.upper() for i, tp in enumerate(d.tparams)}
                         gots = [rename_tp(g, d.tparams) for g in gots]
                         if kindname == "Converter":
@@ -479,6 +535,8 @@ def run(ctx):
                             want = [tagging_view(x, False) for x in want]
                         compare(backend, "record %s" % d.name, gots, want)
         msteps, mrecs = ml_exprs(os.path.join(root, "out/matlab"))
+        _HOME.ns = pkg.ns
+        all_names = [d.name for q in pkg.closure() for d in q.defs]
         for proto in pkg.protocols():
             for role in ("Writer", "Reader"):
                 names = steps_by_order(msteps, proto.name, role)
@@ -494,7 +552,8 @@ def run(ctx):
                     compare("matlab-binary", "%s%s.%s" % (proto.name, role, sn), got, tagging_view(ref_steps[(proto.name, sn)], False))
         for q in pkg.closure():
             for d in q.defs:
-                if isinstance(d, Rec) and d.name in mrecs:
+                if isinstance(d, Rec) and d.name in mrecs and all_names.count(d.name) == 1:
+                    _HOME.ns = q.ns
                     gots = []
                     for x in mrecs[d.name]:
                         try:
@@ -502,7 +561,7 @@ def run(ctx):
                         except Exception as e:
                             gots.append(("unparsable", str(e)[:80]))
                     gots = [rename_tp(g, d.tparams) for g in gots]
-                    compare("matlab-binary", "record %s" % d.name, gots, [tagging_view(x, False) for x in ref_recs[d.name]])
+                    compare("matlab-binary", "record %s" % d.name, gots, [tagging_view(x, False) for x in ref_recs[(q.ns, d.name)]])
         if ok:
             shutil.rmtree(root, ignore_errors=True)
         return {"package": key, "steps": len(ref_steps), "records": len(ref_recs)}
